@@ -159,7 +159,7 @@ pub fn gen(tier: &str, seed: u64, out: &mut dyn FnMut(Value)) {
         }
     }
     // boundary and random wider integers
-    let n = if thorough { 4000 } else { 400 };
+    let n = if thorough { 20000 } else { 1600 };
     for kind in ["i32", "i64", "isize", "u32", "u64", "usize"] {
         let signed = kind.starts_with('i');
         let bits: u32 = if kind.ends_with("32") { 32 } else { 64 };
@@ -187,7 +187,7 @@ pub fn gen(tier: &str, seed: u64, out: &mut dyn FnMut(Value)) {
         bits.push(1 << k);
         bits.push((1 << k) | 1);
     }
-    for _ in 0..(if thorough { 400000 } else { 20000 }) {
+    for _ in 0..(if thorough { 2000000 } else { 80000 }) {
         bits.push(rng.next() as u32);
     }
     for chunk in bits.chunks(500) {
@@ -201,7 +201,7 @@ pub fn gen(tier: &str, seed: u64, out: &mut dyn FnMut(Value)) {
     for i in [-1i64, -9, -10, -128, -32768, i64::MIN, i64::MIN + 1, -(1 << 53) - 1] {
         ns.push(json!({ "i": i }));
     }
-    for _ in 0..(if thorough { 100000 } else { 5000 }) {
+    for _ in 0..(if thorough { 500000 } else { 20000 }) {
         if rng.chance(1, 2) {
             let sh = rng.below(64);
             ns.push(json!({"u": rng.next() >> sh}));
@@ -215,7 +215,7 @@ pub fn gen(tier: &str, seed: u64, out: &mut dyn FnMut(Value)) {
     }
     // 0x-prefixed text
     let mut ts: Vec<String> = vec!["0x0".into(), "0xff".into(), "0xFF".into(), "0xffffffffffffffff".into(), "0x10000000000000000".into(), "0x".into(), "0xg".into(), "0x+1".into(), "0x-1".into(), "0X1".into(), "0x 1".into(), "0x1_0".into(), "0x00000000000000000001".into()];
-    for _ in 0..(if thorough { 20000 } else { 2000 }) {
+    for _ in 0..(if thorough { 100000 } else { 8000 }) {
         ts.push(format!("0x{:x}", rng.next() >> rng.below(64)));
         ts.push(format!("0x{:X}", rng.next() >> rng.below(64)));
     }
